@@ -3,6 +3,7 @@ import random
 from vlib import common as C
 from vlib.framework import Corr
 from harness import layoutlib as L
+from harness import bigalloc as BIG
 
 META = {
     "drivers": ["driver"],
@@ -33,7 +34,7 @@ NARROW_IX = [("mortonF", "u8", (16, 16)), ("mortonT", "u8", (9, 3)), ("hilbert",
              ("hilbert", "u16", (129, 200)), ("mortonF", "u16", (256, 256)), ("mortonT", "u16", (17, 2, 30)), ("hilbert", "u32", (40, 40))]
 
 
-def evaluate(ctx, lines, rle, all8, allocs, cfgs):
+def evaluate(ctx, lines, rle, all8, allocs, cfgs, big=False):
     corr = Corr()
     for o in ("round_pow2", "ipow", "curve_len"):
         corr.add_obl(o)
@@ -190,6 +191,8 @@ def evaluate(ctx, lines, rle, all8, allocs, cfgs):
                         corr.violation("curve_len", f"{lay} {sz} with {ct} coordinates: answer `{o}` (cells allocated, cells lost), model {mlen} 0 "
                                        f"(needs {L.curve_bound(lay, sz)})", {"allocct": [lay, ct, sz], "cfg": cfg}, impl=o, model=f"{mlen} 0",
                                        oracle_fails=fails, key={"kind": "allocct", "lay": lay, "ct": ct, "sz": sz}, cfg=cfg)
+    if big:   # Morton / Hilbert storage of fields too large to allocate
+        BIG.run(ctx, corr, "curve_len", ["mortonT", "mortonF", "hilbert"], 12 if ctx.quick else 150, seed_salt=18)
     return corr
 
 
@@ -236,12 +239,14 @@ def gen(ctx):
 
 def run(ctx):
     lines, rle, all8, allocs = gen(ctx)
-    return evaluate(ctx, lines, rle, all8, allocs, ["dbg", "rel"])
+    return evaluate(ctx, lines, rle, all8, allocs, ["dbg", "rel"], big=True)
 
 
 def replay(ctx):
     c = ctx.replay["case"]
     cfg = [c.get("cfg", "dbg")]
+    if "bigalloc" in c:
+        return evaluate(ctx, [], [], False, [], [], big=True)
     if "alloc" in c:
         return evaluate(ctx, [], [], False, [tuple(c["alloc"])], cfg)
     if "allocix" in c:
